@@ -15,6 +15,7 @@ use alloc::string::ToString;
 use alloc::vec::Vec;
 
 use iceoryx2_bb_container::semantic_string::SemanticString;
+use iceoryx2_bb_posix::unique_system_id::UniqueSystemId;
 use iceoryx2_bb_system_types::file_name::FileName;
 use iceoryx2_cal::event::NamedConceptMgmt;
 use iceoryx2_cal::named_concept::NamedConceptListError;
@@ -23,7 +24,8 @@ use iceoryx2_cal::zero_copy_connection::{ZeroCopyConnection, ZeroCopyPortRemoveE
 use iceoryx2_log::{debug, fail};
 
 use crate::config;
-use crate::identifiers::UniqueNodeId;
+use crate::identifiers::{UniqueListenerId, UniqueNodeId};
+use crate::port::listener::remove_connection_of_listener;
 use crate::service;
 use crate::service::Service;
 use crate::service::config_scheme::port_tag_config;
@@ -356,6 +358,25 @@ pub unsafe fn remove_stale_port_resources<Service: service::Service>(
                 fail!(from origin, with RemoveStalePortResourcesError::InternalError,
                     "{msg} since an interrupt signal was raised.");
             }
+        }
+    }
+
+    // The port could be a listener that died after it created its event concept but before it was
+    // added to the service's dynamic config. Removing a non-existing event concept is not an error.
+    let listener_id = UniqueListenerId(UniqueSystemId::from(port_id));
+    match unsafe { remove_connection_of_listener::<Service>(&listener_id, config) } {
+        Ok(()) => (),
+        Err(NamedConceptRemoveError::InsufficientPermissions) => {
+            fail!(from origin, with RemoveStalePortResourcesError::InsufficientPermissions,
+                "{msg} due to insufficient permissions to remove the ports event concept.");
+        }
+        Err(NamedConceptRemoveError::InternalError) => {
+            fail!(from origin, with RemoveStalePortResourcesError::InternalError,
+                "{msg} due to an internal error while removing the ports event concept.");
+        }
+        Err(NamedConceptRemoveError::Interrupt) => {
+            fail!(from origin, with RemoveStalePortResourcesError::Interrupt,
+                "{msg} since an interrupt signal was raised.");
         }
     }
 
